@@ -270,6 +270,27 @@ fn step(m: &mut Model, r: &mut Real, op: Op, out: &mut Vec<Viol>) {
     }
 }
 
+fn parse_op(t: &str) -> Op {
+    let nums: Vec<u8> = t.split(|c: char| !c.is_ascii_digit()).filter(|x| !x.is_empty()).map(|x| x.parse().unwrap()).collect();
+    let head = t.split('(').next().unwrap();
+    match head {
+        "WOpen" => Op::WOpen,
+        "WOpenDiff" => Op::WOpenDiff,
+        "WUpd" => Op::WUpd(nums[0], nums[1]),
+        "WRm" => Op::WRm(nums[0]),
+        "WRemoveAll" => Op::WRemoveAll,
+        "WCommit" => Op::WCommit,
+        "WCommitKeepNode" => Op::WCommitKeepNode,
+        "WCommitFault" => Op::WCommitFault,
+        "WStaleUpd" => Op::WStaleUpd(nums[0], nums[1]),
+        "WDrop" => Op::WDrop,
+        "RAcq" => Op::RAcq(nums[0]),
+        "RObs" => Op::RObs(nums[0]),
+        "RRel" => Op::RRel(nums[0]),
+        _ => panic!("unknown operation {t} in replay file"),
+    }
+}
+
 fn fresh() -> (Model, Real) {
     let c = initial_content();
     let zone = build_direct(&c, false);
@@ -315,9 +336,24 @@ fn main() {
     let depth = if thorough { 9 } else { 8 };
 
     if let Some(p) = &ctx.replay {
+        // replay one stored history on a fresh real zone, without the explorer
         let v: Value = serde_json::from_str(&std::fs::read_to_string(p).expect("replay")).expect("json");
-        println!("replaying {}: {:?}", v["signature"], v["case"]["ops"]);
-        println!("(re-run the check; histories are rebuilt by BFS and the first history of each class is stored)");
+        let hist: Vec<Op> = v["case"]["ops"].as_array().expect("ops").iter().map(|o| parse_op(o.as_str().unwrap())).collect();
+        println!("replaying {} operations: {:?}", hist.len(), hist);
+        for n in 1..=hist.len() {
+            let mut viol = Vec::new();
+            match guard(|| {
+                replay(&hist[..n], &mut viol);
+            }) {
+                Ok(()) => {}
+                Err(p) => viol.push(Viol { sig: format!("C09|panic|{}", panic_class(&p)), what: p }),
+            }
+            for x in viol {
+                println!("  after step {n} ({:?}): {}", hist[n - 1], x.what);
+                ctx.violation(&x.sig, &x.what, json!({"ops": hist[..n].iter().map(|o| format!("{:?}", o)).collect::<Vec<_>>()}));
+            }
+        }
+        ctx.finish_quiet();
     }
 
     let mut frontier: Vec<Vec<Op>> = vec![vec![]];
